@@ -221,6 +221,7 @@ class Ctx(object):
     def run_case(self, unit, index, params):
         self.cur_unit, self.cur_index, self.cur_params = unit.name, index, params
         self.count("cases_run:" + unit.name)
+        _t0 = time.time()
         try:
             with np.errstate(all="ignore"):
                 unit.run(self, params)
@@ -234,6 +235,7 @@ class Ctx(object):
                                             error="%s: %s" % (type(e).__name__, e),
                                             tb=traceback.format_exc()[-1500:]))
         finally:
+            self.count("wall_ms:" + unit.name, int(1000 * (time.time() - _t0)))
             self.cur_unit = self.cur_index = self.cur_params = None
 
     def dump(self):
